@@ -158,7 +158,7 @@ func (c *checker) spawn(tag string, args ...string) ([]byte, string, int) {
 	cmd := exec.CommandContext(ctx, c.bin, args...)
 	var so, se bytes.Buffer
 	cmd.Stdout, cmd.Stderr = &so, &se
-	cmd.Env = c.raceEnv(filepath.Join(c.outDir(), "race-"+tag))
+	cmd.Env = append(c.raceEnv(filepath.Join(c.outDir(), "race-"+tag)), "VERIF_CRASH_FILE="+filepath.Join(c.outDir(), "crash-"+tag+".json"))
 	err := cmd.Run()
 	code := 0
 	if ctx.Err() != nil {
@@ -530,6 +530,9 @@ func (c *checker) handleFailure(t *kit.Trace, agg *kit.Stats) int {
 		return c.fail2("a run failed (%s) but its recorded trace does not fail on replay in a fresh process: simulator non-determinism, not a finding; trace kept at %s", violClass(t), raw)
 	}
 	class := base.Viol.Class
+	if base.Trace == nil {
+		base.Trace = t // the replay process died reporting the violation (watchdog)
+	}
 	fmt.Printf("violation found: class=%s (seed %d, %d elements); minimising\n", class, t.Seed, t.Size())
 	minPath := filepath.Join(c.outDir(), "failure-min.json")
 	if !c.desc.FreshProcess {
@@ -551,7 +554,11 @@ func (c *checker) handleFailure(t *kit.Trace, agg *kit.Stats) int {
 			return rr != nil && rr.Viol != nil && rr.Viol.Class == class
 		}
 		eng := c.entry.New(knownSet(c.knownKs))
-		m, evals := kit.Minimise(base.Trace, test, eng.Simplify, 400)
+		budget := 400
+		if strings.HasPrefix(class, "deadlock:blocked") {
+			budget = 30 // every candidate costs the watchdog's patience
+		}
+		m, evals := kit.Minimise(base.Trace, test, eng.Simplify, budget)
 		fmt.Fprintf(os.Stderr, "minimise: %d -> %d elements in %d fresh-process evaluations\n", base.Trace.Size(), m.Size(), evals)
 		if err := m.WriteFile(minPath); err != nil {
 			minPath = raw
@@ -576,6 +583,13 @@ func (c *checker) handleFailure(t *kit.Trace, agg *kit.Stats) int {
 			return c.fail2("violation %s replays at different steps (%d vs %d): simulator non-determinism; trace kept at %s", class, fin.Viol.Step, rr.Viol.Step, minPath)
 		}
 		fin = rr
+	}
+	if fin.Trace == nil {
+		if mt, err := kit.ReadTrace(minPath); err == nil {
+			fin.Trace = mt
+		} else {
+			fin.Trace = t
+		}
 	}
 	fin.Trace.Viol = fin.Viol
 	final := filepath.Join(dir, fmt.Sprintf("%d-%s.json", t.Seed, safeName(class)))
